@@ -278,6 +278,22 @@ def ismultiple_stream(ctx, n):
             if r[0] != "ok" or not bool(np.all(np.asarray(r[1]) == exp)):
                 ctx.disagree(f"C20:is_multiple:{name}", desc, exp, r[1:3] if r[0] != "ok" else np.asarray(r[1]).tolist(), replay=[desc])
                 break
+    # mixed batches: every row is decided on its own (zero rows next to non-zero ones, multiples next to non-multiples)
+    for start in range(0, len(cases) - 3, 3):
+        group = [c for c in cases[start:start + 3] if len(c[0]) == len(cases[start][0])]
+        if len(group) < 2:
+            continue
+        A = np.array([[float(x) for x in a] for a, b in group])
+        B = np.array([[float(x) for x in b] for a, b in group])
+        exp = [bool(dec_bools(answers[cases.index(c)].split(" ")[1])) for c in group]
+        desc = f"is_multiple batch {A.tolist()} {B.tolist()}"
+        ctx.case(desc)
+        ctx.count("is_multiple:mixed-batch")
+        for name, f in (("axis-1", lambda: gu.is_multiple(A, B, axis=-1)), ("axis-tuple", lambda: gu.is_multiple(A, B, axis=(1,))), ("swapped", lambda: gu.is_multiple(B, A, axis=-1))):
+            r = call_impl(f)
+            if r[0] != "ok" or np.asarray(r[1]).tolist() != exp:
+                ctx.disagree(f"C20:is_multiple:mixed-batch:{name}", desc, exp, r[1:3] if r[0] != "ok" else np.asarray(r[1]).tolist(), replay=[desc])
+                break
 
 
 def hat_stream(ctx, n):
